@@ -242,18 +242,18 @@ _ASSUME = ['TaggedSeries executed as a shadow with exception-message formatting 
 
 HARNESSES = [
   H('C18_any', quick=dict(timeout=280, shards=[('len%d' % n, 'len(x) == %d' % n) for n in range(5)], extra_pre=['len(x) <= 4']),
-    thorough=dict(timeout=1500, shards=[('len%d' % n, 'len(x) == %d' % n) for n in range(7)], extra_pre=['len(x) <= 6']),
+    thorough=dict(timeout=1500, shards=[('len%d' % n, 'len(x) == %d' % n) for n in range(6)], extra_pre=['len(x) <= 5']),
     covers=['accepted', 'rejected'], replay='replay_any', twin_pre=['len(x) <= 2'],
     encodes=['carbon.util:TaggedSeries.parse', 'carbon.util:TaggedSeries.parse_carbon', 'carbon.util:TaggedSeries.parse_openmetrics',
              'carbon.util:TaggedSeries.validateTagAndValue', 'carbon.util:TaggedSeries.format', 'carbon.util:TaggedSeries.sanitize_name_as_tag_value'],
     assumptions=_ASSUME + ['every string of length <= 4 (quick) / 5 (thorough) over the full alphabet']),
   H('C18_carbon', quick=dict(timeout=280, shards=[('one', 'not two'), ('two', 'two and ni <= 1 and t1i <= 3 and t2i <= 3 and v1i % 2 == 0')]),
-    thorough=dict(timeout=1500, shards=[('one', 'not two')] + [('two_n%d_t%d' % (k, t), 'two and ni == %d and t1i == %d' % (k, t)) for k in range(len(COMP2)) for t in range(len(COMP2))]),
+    thorough=dict(timeout=600, extra_pre=['(not two) or (v1i % 2 == 0 and v2i % 2 == 0)'], shards=[('one', 'not two')] + [('two_n%d_t%d' % (k, t), 'two and ni == %d and t1i == %d' % (k, t)) for k in range(len(COMP2)) for t in range(len(COMP2))]),
     covers=['accepted', 'rejected', 'permuted'], replay='replay_carbon', twin_pre=['two and ni <= 1'],
     encodes=['carbon.util:TaggedSeries.parse_carbon', 'carbon.util:TaggedSeries.format', 'carbon.util:TaggedSeries.validateTagAndValue'],
     assumptions=_ASSUME + ['template name;t1=v1[;t2=v2], components from a table of %d strings incl. empty and reserved-character ones (symbolic indices); arbitrary strings up to the C18_any bound are covered there' % len(COMP2) + '']),
   H('C18_syntax', quick=dict(timeout=280, shards=[('one', 'not two'), ('two', 'two and ni <= 1 and v1i <= 2 and v2i <= 2')]),
-    thorough=dict(timeout=1500, shards=[('one', 'not two')] + [('two_n%d' % k, 'two and ni == %d' % k) for k in range(len(COMP))]), covers=['both'], replay='replay_syntax',
+    thorough=dict(timeout=900, extra_pre=['(not two) or (v1i <= 4 and v2i <= 4)'], shards=[('one', 'not two')] + [('two_n%d' % k, 'two and ni == %d' % k) for k in range(len(COMP))]), covers=['both'], replay='replay_syntax',
     encodes=['carbon.util:TaggedSeries.parse_openmetrics', 'carbon.util:TaggedSeries.parse_carbon', 'carbon.util:TaggedSeries.format'],
     assumptions=_ASSUME + ['same tag set written in carbon and OpenMetrics syntax and in both orders; name/tags/values from a table of %d plain components with symbolic indices (the OpenMetrics regex on symbolic strings is out of CrossHair\'s reach); optional explicit name tag' % len(COMP) + '']),
   H('C18_mixed', quick=dict(timeout=280, shards=[('tags_first', 'order')], extra_pre=['t2 == "t" and v1 == "1"']), thorough=dict(timeout=1500, shards=[('tags_first', 'order'), ('braces_first', 'not order')]), covers=['accepted', 'rejected'], replay='replay_mixed',
